@@ -20,6 +20,7 @@ Decided (DESIGN.md C23):
  (f) K1-ldap      LdapServer::do_search / do_compare reach entries only through search_ext / exists with an event whose
                   identity comes from validate_ldap_session;
  (g) K1-handlers  the request handlers of kanidmd_core (actors::v1_*) read entries only through search_ext (floor) — the image handler is allow-listed (O1).
+ K5-profile-fields  AccessControlSearch.attrs / AccessControlProfile.receiver,target are parsed from their own stored attributes (lib/x_fields.py).
 Not decided: that the ACP evaluation (receiver/target matching, grant arithmetic) agrees with a reference model over all
 profile sets; filter resolution; LDAP attribute mapping.
 """
